@@ -178,11 +178,19 @@ def gen_chain(rng, shape, steps, need_drop=False):
     """Chain of valid items (JSON form) each leaving at least one non-empty axis."""
     chain = []
     shape = list(shape)
+    # a targeted pattern: first cut a range that does not start at 0 on every axis, then index
+    # with integers - what later steps pick is then relative to a shifted origin
+    offset_then_int = steps >= 2 and rng.random() < 0.45
     for s in range(steps):
         if not shape:
             break
         for _ in range(30):
-            items = [gen_axis_item(rng, n, 0.45 if need_drop else 0.3) for n in shape]
+            if offset_then_int and s == 0:
+                items = [C.sl(rng.randint(1, n - 1), None if rng.random() < 0.5 else n + 1) if n >= 2 else C.sl() for n in shape]
+            elif offset_then_int:
+                items = [gen_axis_item(rng, n, 0.7) for n in shape]
+            else:
+                items = [gen_axis_item(rng, n, 0.45 if need_drop else 0.3) for n in shape]
             if all(not isinstance(i, dict) for i in items):
                 items[rng.randrange(len(items))] = C.sl()
             r = rng.random()
